@@ -168,7 +168,7 @@ fn edit_step(rng: &mut Rng, ty: &Ty, cur: &str, over_ok: bool) -> String {
         9 => {
             let k = arg_len(rng, ty, len, over_ok).min(80);
             let bits = gen_bits(rng, k);
-            line("extend", &[cur, &bits_token(&bits)])
+            line("extend", &[cur, &bits_token(&bits), ["x", "n", "l", "f"][rng.below(4)]])
         }
         10 if len > 0 => line("rotl", &[cur, &s(rng.below(len + 1))]),
         11 if len > 0 => line("rotr", &[cur, &s(rng.below(len + 1))]),
@@ -236,6 +236,19 @@ fn gen_c07(rng: &mut Rng, tier: &str, emit: Emit) {
             }
         }
     }
+    // extend / collect with iterators whose size_hint is exact, absent, a lower bound only, or an upper bound only
+    for ty in TYPES {
+        for hint in ["x", "n", "l", "f"] {
+            for (cur_len, add) in [(0usize, 5usize), (60, 10), (120, 20), (127, 1), (127, 2), (128, 1), (100, 100), (0, 200), (190, 5)] {
+                let cap = ty.cap().unwrap_or(usize::MAX);
+                if cur_len > cap { continue; }
+                let v = gen_vec_len(rng, &ty, cur_len);
+                let bits = gen_bits(rng, add);
+                emit(line("extend", &[&v, &bits_token(&bits), hint]));
+                if cur_len == 0 { emit(line("collect", &[ty.tag, &bits_token(&bits), hint])); }
+            }
+        }
+    }
     // histories of edits, continuing from the implementation's own state
     for _ in 0..scale(tier, 600) {
         let ty = *rng.pick(TYPES);
@@ -243,7 +256,7 @@ fn gen_c07(rng: &mut Rng, tier: &str, emit: Emit) {
             0 => {
                 let n0 = rng.below(20).min(ty.cap().unwrap_or(20));
                 let bits = gen_bits(rng, n0);
-                out_vec(&emit(line("collect", &[ty.tag, &bits_token(&bits)])))
+                out_vec(&emit(line("collect", &[ty.tag, &bits_token(&bits), ["x", "n", "l", "f"][rng.below(4)]])))
             }
             _ => Some(gen_vec(rng, &ty, 200)),
         };
@@ -585,7 +598,8 @@ fn gen_c19(rng: &mut Rng, tier: &str, emit: Emit) {
             emit(line("ones", &[ty.tag, &s(n)]));
             emit(line("repeat", &[ty.tag, "1", &s(n)]));
             let bits = vec![true; n];
-            emit(line("collect", &[ty.tag, &bits_token(&bits)]));
+            emit(line("collect", &[ty.tag, &bits_token(&bits), "x"]));
+            emit(line("collect", &[ty.tag, &bits_token(&bits), "n"]));
             emit(line("from_binary", &[ty.tag, &chars_token(&"1".repeat(n))]));
             emit(line("from_hex", &[ty.tag, &chars_token(&"f".repeat((n + 3) / 4))]));
             emit(line("from_bytes", &[ty.tag, &bytes_token(&vec![0xffu8; (n + 7) / 8]), "little"]));
@@ -748,7 +762,69 @@ fn gen_c13(rng: &mut Rng, tier: &str, emit: Emit) {
     }
 }
 
+
+/// little-endian bits of the number written in `base` by `digits` (most significant first)
+fn bits_of_digits(digits: &[u32], base: u32, len: usize) -> Vec<bool> {
+    let mut limbs: Vec<u64> = vec![0; (len + 63) / 64 + 1];
+    for d in digits {
+        let mut carry = *d as u128;
+        for l in limbs.iter_mut() {
+            let t = (*l as u128) * base as u128 + carry;
+            *l = t as u64;
+            carry = t >> 64;
+        }
+    }
+    (0..len).map(|i| (limbs[i / 64] >> (i % 64)) & 1 == 1).collect()
+}
+/// values whose numeral in base 2, 8, 10 or 16 has long runs of zero digits (or of the largest digit) in the middle:
+/// round numbers such as 10^19, 10^38+7, 0x1_0000…0005, 999…9 — what chunked digit extraction gets wrong
+fn digit_lattice(rng: &mut Rng, tier: &str, emit: Emit) {
+    for ty in TYPES {
+        let cap = ty.cap().unwrap_or(260).min(260);
+        if cap < 16 { continue; }
+        for _ in 0..scale(tier, 40) {
+            let base = [10u32, 10, 10, 16, 8, 2][rng.below(6)];
+            let bits_per = (base as f64).log2();
+            let maxd = ((cap as f64) / bits_per).floor() as usize;
+            if maxd < 2 { continue; }
+            let nd = 2 + rng.below(maxd - 1);
+            let mut ds: Vec<u32> = (0..nd).map(|_| rng.below(base as usize) as u32).collect();
+            ds[0] = 1 + rng.below(base as usize - 1) as u32;
+            // a run of zeros (or of base-1) somewhere below the top digit, often aligned to 19 / 16 / 9 / 8 digits
+            let fillv = if rng.chance(3, 4) { 0 } else { base - 1 };
+            let runlen = match rng.below(5) { 0 => 19, 1 => 16, 2 => 9, 3 => 38, _ => 1 + rng.below(nd) }.min(nd - 1);
+            let start = 1 + rng.below(nd - runlen);
+            let start = if rng.chance(1, 2) { nd - runlen - ((nd - runlen - 1) / runlen.max(1)) * 0 } else { start }.min(nd - runlen).max(1);
+            for i in start..start + runlen { ds[i] = fillv; }
+            if rng.chance(1, 3) { for i in 1..nd { ds[i] = fillv; } }           // d·base^k exactly (or d99…9)
+            let len = cap - rng.below(cap / 8 + 1);
+            let bits = bits_of_digits(&ds, base, len);
+            let v = vec_token(ty, &bits, rng.below(2), rng.chance(1, 4));
+            for k in ["d", "x", "o", "b"] {
+                emit(line("fmt", &[&v, k]));
+            }
+        }
+    }
+}
+
+const FMT_SPECS: &[&str] = &["S20.n.0.0.0.-", "S20.n.0.1.0.-", "S20.n.1.0.0.-", "S20.n.1.1.0.-", "S20.n.0.0.1.8", "S20.n.0.1.1.10", "S20.n.1.1.1.12", "S20.n.0.0.0.12", "S20.l.0.0.0.12", "S20.r.0.0.0.12", "S20.c.0.0.0.12", "S2a.l.0.0.0.12", "S2a.c.0.0.0.13", "S5f.r.1.1.0.20", "S20.n.0.0.0.1", "S23.l.0.0.0.1", "S30.l.0.0.0.9", "S20.l.0.0.1.9", "S20.c.1.1.1.30", "S20.n.0.0.0.40", "S20.n.0.1.0.40", "Se9.c.0.0.0.11", "S20.c.0.1.0.7", "S2d.r.1.0.0.3", "S20.n.0.1.1.200", "S20.l.0.1.0.140"];
+
 fn gen_c14(rng: &mut Rng, tier: &str, emit: Emit) {
+    digit_lattice(rng, tier, emit);
+    // whole strings under format specs (#, +, 0, width, fill, alignment) for all five traits
+    for ty in TYPES {
+        for _ in 0..scale(tier, 12) {
+            let len = match rng.below(4) { 0 => 0, 1 => rng.below(9), _ => gen_len(rng, ty, 200) };
+            let mut bits = gen_bits(rng, len);
+            if rng.chance(1, 3) { let z = rng.below(len + 1); for i in (len - z)..len { bits[i] = false; } }
+            let v = vec_token(ty, &bits, rng.below(2), rng.chance(1, 4));
+            for sp in FMT_SPECS {
+                let k = ["b", "o", "d", "x", "X"][rng.below(5)];
+                if k == "d" && len > 140 { continue; }
+                emit(line("fmtspec", &[&v, k, sp]));
+            }
+        }
+    }
     for ty in small_types() {
         for v in all_small(&ty, 7) {
             for k in ["b", "o", "d", "x", "X"] {
@@ -922,6 +998,79 @@ fn gen_c02(rng: &mut Rng, tier: &str, emit: Emit) {
 }
 
 
+
+/// long heap vectors (beyond any plausible internal buffer size): the dynamic and auto types are unbounded
+pub const LONG_LENS: &[usize] = &[520, 1030, 2049, 4100, 8200, 16390, 33000];
+pub fn long_vec(rng: &mut Rng, ty: &Ty, len: usize) -> String {
+    // asymmetric content: random, with a marker pattern in the first and last bytes
+    let mut bits: Vec<bool> = (0..len).map(|_| rng.next() & 1 == 1).collect();
+    if rng.chance(1, 4) { for b in bits.iter_mut().skip(len / 3).take(len / 3) { *b = false; } }
+    if len > 16 { bits[0] = true; bits[1] = false; bits[len - 1] = true; bits[len - 2] = false; }
+    vec_token(ty, &bits, rng.below(2), false)
+}
+fn long_cases(rng: &mut Rng, fam: &str, emit: Emit) {
+    for ty in [ty_of("D"), ty_of("A")] {
+        for &len in LONG_LENS {
+            let v = long_vec(rng, &ty, len);
+            match fam {
+                "C13" => {
+                    for e in ["little", "big"] {
+                        emit(line("to_vec", &[&v, e]));
+                        let nb = (len + 7) / 8;
+                        let bytes: Vec<u8> = (0..nb + 2).map(|_| rng.next() as u8).collect();
+                        emit(line("read", &[ty.tag, &bytes_token(&bytes), &s(len), e]));
+                        emit(line("from_bytes", &[ty.tag, &bytes_token(&bytes[..nb]), e]));
+                    }
+                }
+                "C14" => { for k in ["b", "o", "x", "X"] { emit(line("fmt", &[&v, k])); } if len <= 2100 { emit(line("fmt", &[&v, "d"])); } }
+                "C10" => { emit(line("hash", &[&v])); }
+                "C16" => {
+                    emit(line("counts", &[&v]));
+                    let k = rng.below(len);
+                    let mut lo = vec![false; len]; for i in 0..k { lo[i] = true; }
+                    emit(line("counts", &[&vec_token(&ty, &lo, 1, false)]));
+                    lo.reverse();
+                    emit(line("counts", &[&vec_token(&ty, &lo, 0, false)]));
+                }
+                "C09" => {
+                    let wl = len - rng.below(70);
+                    let w = long_vec(rng, &ty, wl);
+                    emit(line("cmpall", &[&v, &w]));
+                    emit(line("cmpall", &[&v, &v]));
+                }
+                "C06" => { for k in [1usize, 64, len / 2, len - 1, len - 64] { emit(line("rotl", &[&v, &s(k)])); emit(line("rotr", &[&v, &s(k)])); } }
+                "C05" => { emit(line("shl_in", &[&v, "1"])); emit(line("shr_in", &[&v, "1"])); }
+                "C07" | "C03" | "C18" => {
+                    let xl = LONG_LENS[rng.below(3)];
+                    let x = long_vec(rng, &ty_of("D"), xl);
+                    emit(line("append", &[&v, &x]));
+                    emit(line("prepend", &[&v, &x]));
+                    emit(line("insert", &[&v, &s(rng.below(len)), &x]));
+                    emit(line("resize", &[&v, &s(len + 3000), "1"]));
+                    emit(line("truncate", &[&v, &s(len / 2 + 1)]));
+                    emit(line("push", &[&v, "1"]));
+                }
+                "C08" => {
+                    let st = rng.below(len / 2);
+                    emit(line("copy_range", &[&v, &s(st), &s(len - rng.below(len / 3))]));
+                    emit(line("split_off", &[&v, &s(st)]));
+                }
+                "C12" => { emit(line("convert", &["D", &v])); emit(line("convert", &["A", &v])); }
+                "C15" => {
+                    let n = len / 4;
+                    let str: String = (0..n).map(|_| char::from_digit(rng.below(16) as u32, 16).unwrap()).collect();
+                    emit(line("from_hex", &[ty.tag, &chars_token(&str)]));
+                    let bin: String = (0..len.min(9000)).map(|_| if rng.chance(1, 2) { '1' } else { '0' }).collect();
+                    emit(line("from_binary", &[ty.tag, &chars_token(&bin)]));
+                }
+                "C17" => { emit(line("iter", &[&v, "0", &format!("nth:{},back,nthb:{},hint,next", len / 2, len / 3)])); }
+                "C11" => { emit(line("to_uint", &[&v, "128"])); }
+                _ => {}
+            }
+        }
+    }
+}
+
 /// every family also observes / operates on vectors that were produced by short histories
 fn with_produced(rng: &mut Rng, tier: &str, fam: &str, emit: Emit) {
     let n = scale(tier, 400);
@@ -994,4 +1143,5 @@ pub fn generate(fam: &str, seed: u64, tier: &str, emit: Emit) {
         _ => panic!("unknown family {fam}"),
     }
     with_produced(rng, tier, fam, emit);
+    long_cases(rng, fam, emit);
 }
